@@ -33,12 +33,13 @@ HDR = 'Traceback (most recent call last):'
 DIMS = [
     ('cls', ['builtin', 'keyerr', 'dotted', 'moduser', 'docuser', 'os']),
     ('msg', ['plain', 'empty', 'multi', 'colon', 'dots', 'num', 'noted']),
-    ('src', ['raise', 'call', 'helper', 'noraise']),
+    ('src', ['raise', 'call', 'helper', 'noraise', 'await', 'gen']),
     ('want', ['none', 'exact', 'stack', 'dotstack', 'wrongmsg', 'wrongtype', 'header', 'nontb', 'ellmsg', 'nameonly',
               'indented', 'indented_wrongmsg']),
     ('flags', [(), ('+IGNORE_EXCEPTION_DETAIL',), ('-ELLIPSIS',), ('+IGNORE_EXCEPTION_DETAIL', '-ELLIPSIS'),
                ('+IGNORE_WANT',)]),
     ('pos', ['only', 'middle', 'last']),
+    ('fplace', ['block', 'inline']),        # the flags as a block directive above, or inline on the raising statement
 ]
 
 
@@ -78,12 +79,16 @@ def flags_dict(fl):
 
 def build(cfg):
     cls, msg, src, want, fl, pos = (cfg[k] for k in ('cls', 'msg', 'src', 'want', 'flags', 'pos'))
+    inline = cfg.get('fplace', 'block') == 'inline'
+    if inline and not fl:
+        return None
     expr = exc_expr(cls, msg)
     excline, etype = ref_excline(expr)
     excline_ = excline.rstrip('\n')
     lines = []
-    for f in fl:
-        lines.append('>>> # xdoctest: ' + f)
+    if not inline:
+        for f in fl:
+            lines.append('>>> # xdoctest: ' + f)
     pre = []
     if cls == 'docuser':
         lines.append('>>> class DErr(Exception): pass')
@@ -96,9 +101,15 @@ def build(cfg):
         lines.append('>>> boom(%s)' % expr)
     elif src == 'helper':
         lines += ['>>> def h():', '...     raise ' + expr, '>>> h()']
+    elif src == 'await':
+        lines += ['>>> async def ah():', '...     raise ' + expr, '>>> await ah()']
+    elif src == 'gen':
+        lines += ['>>> def gen():', '...     yield 1', '...     raise ' + expr, '>>> list(gen())']
     elif src == 'noraise':
         lines.append('>>> e5 = T(5, %s)' % expr)       # builds the exception object, raises nothing
         pre = pre + [5]
+    if inline:
+        lines[-1] += '  # xdoctest: ' + ', '.join(fl)
     tname = excline_.split(':')[0].split('\n')[0]
     rest = excline_[len(tname):]
     if want == 'none':
